@@ -3,6 +3,8 @@
      esize <s>            element size in bytes (key in byte 0, tag in the rest)
      arr k0 k1 ...        keys, may be repeated (concatenated)
      vcap <extra>         (driver only: spare capacity of the vector)
+     cmpmode <m>          (driver only: 0 = callback returns -1/0/1, 1 = key difference,
+                           2 = sign times a magnitude varying from call to call)
    operations, each applied to the array of the header:
      sort <sel> [draws]   cstl_raw_array_sort, rand() returns the draws, then 0
      sortlcg <sel> <seed> same, rand() is the LCG x' = (1103515245 x + 12345) mod 2^31
@@ -84,6 +86,7 @@ let run_case ~(v0 : bool) (c : case) =
     | ["esize"; s] -> esize := int_of_string s
     | "arr" :: ks -> keys := !keys @ L.map int_of_string ks
     | ["vcap"; _] -> ()
+    | ["cmpmode"; _] -> ()   (* magnitude of the C callback's results: the model only sees signs *)
     | _ ->
       let tm = tagmod !esize in
       let a : el list = L.mapi (fun i k -> (k, i mod tm)) !keys in
